@@ -83,6 +83,35 @@ func (P *Program) specType(t string) (string, types.Type) {
 		g := types.NewSlice(et)
 		return SortOf(g), g
 	}
+	if strings.HasPrefix(t, "map[") {
+		// map[K]V: a reference with the Go map type
+		d, end := 0, -1
+		for i := 3; i < len(t); i++ {
+			if t[i] == '[' {
+				d++
+			} else if t[i] == ']' {
+				d--
+				if d == 0 {
+					end = i
+					break
+				}
+			}
+		}
+		if end > 0 {
+			ks, kt := P.specType(t[4:end])
+			vs, vt := P.specType(t[end+1:])
+			if kt == nil {
+				kt = goTypeOfSort(ks)
+			}
+			if vt == nil {
+				vt = goTypeOfSort(vs)
+			}
+			if kt != nil && vt != nil {
+				return "Int", types.NewMap(kt, vt)
+			}
+		}
+		return "Int", nil
+	}
 	if strings.HasPrefix(t, "*") {
 		_, et := P.specType(t[1:])
 		if et == nil {
@@ -94,6 +123,20 @@ func (P *Program) specType(t string) (string, types.Type) {
 		return SortOf(n), n
 	}
 	return SpecSort(t), nil
+}
+
+func goTypeOfSort(so string) types.Type {
+	switch so {
+	case "Int":
+		return types.Typ[types.Int]
+	case "Str":
+		return types.Typ[types.String]
+	case "Bool":
+		return types.Typ[types.Bool]
+	case "Bytes":
+		return types.NewSlice(types.Typ[types.Byte])
+	}
+	return nil
 }
 
 // findPure finds a pure function contract by (suffix of) key.
@@ -229,6 +272,21 @@ func (P *Program) VerifyFunc(fn *ssa.Function, fc *FuncContract) *FuncResult {
 			fr.vals[fv] = tv
 			env.vars[fv.Name()] = tv
 		}
+		// parameters the body assigns: inside the body (loop invariants, call-site
+		// assertions) their name means the current value; in requires / ensures / let
+		// it means the entry value
+		env.mut = map[string]bool{}
+		for _, b := range fn.Blocks {
+			for _, in := range b.Instrs {
+				if ph, ok := in.(*ssa.Phi); ok {
+					for _, p := range fn.Params {
+						if ph.Comment == p.Name() {
+							env.mut[p.Name()] = true
+						}
+					}
+				}
+			}
+		}
 		for _, l := range fc.Lets {
 			env.vars[l.Name] = s.eval(env, l.E)
 		}
@@ -270,6 +328,7 @@ func (P *Program) VerifyFunc(fn *ssa.Function, fc *FuncContract) *FuncResult {
 		post := env.child()
 		post.st = out
 		post.old = s.entry
+		post.local = func(name string) (TV, bool) { return fr.singleDefLocal(name, out) }
 		bindResults(post, fn.Signature, rets)
 		// ghost updates at exit
 		for _, g := range fc.Sets {
